@@ -342,6 +342,15 @@ class Client(BaseClient):
             message.EnableBLOB(device=device, value=const.BLOBEnable.ONLY)
         )
 
+    def process_blob_message(self, msg: IndiMessage):
+        """Handles messages arriving on the BLOB connection.
+
+        Until the server has processed `enableBLOB Only` this connection receives a
+        second copy of the ordinary traffic; only BLOB updates are taken from it.
+        """
+        if isinstance(msg, message.SetBLOBVector):
+            self.process_message(msg)
+
     async def start(self):
         """Starts client and connects to the server.
 
@@ -351,7 +360,7 @@ class Client(BaseClient):
             self.process_message
         )
         self.blob_connection_handler = await self.blob_connection.connect(
-            self.process_message, for_blobs=True
+            self.process_blob_message, for_blobs=True
         )
 
         asyncio.get_running_loop().create_task(
